@@ -168,7 +168,21 @@ def mk_conn(ctx, state=None):
          TC('onDisconnected'): Opt(FreshBool('noDiscCb'), Callable_('cb:onDisconnected')),
          TC('onConnected'): Opt(FreshBool('noConnCb'), Callable_('cb:onConnected')),
          'sendRandKey': None, 'recvRandKey': None, 'recvLastTimestamp': 0, 'encryptor': None}
-    conn = ctx.alloc(PObj('TcpConnection', f))
+    # created by the real constructor (whatever it establishes beyond the fields below is in place), then put into the contract's symbolic state
+    conn = None
+    try:
+        mod_ = source.load(TMOD)
+        fn_, ci_ = mod_.find('TcpConnection.__init__')
+        conn = ctx.alloc(PObj('TcpConnection', {}))
+        I_c = Interp(ctx, registry=dict(REG), externals=dict(EXT), hooks={})
+        I_c.cur_mod = mod_
+        I_c.call_funcdef(fn_, mod_, 'TcpConnection', conn, [poller], {}, None, 'TcpConnection.__init__')
+        c_ = ctx.cell(conn)
+        for k_, v_ in f.items():
+            c_ = c_.with_field(k_, v_)
+        ctx.setcell(conn, c_)
+    except (Undecided, PyExc, KeyError, AttributeError, TypeError, NameError):
+        conn = ctx.alloc(PObj('TcpConnection', f))
     ctx.assume(f[TC('recvBufferSize')] >= 1)
     ctx.assume(f[TC('timeout')] > 0)
     ctx.track('len(readBuffer)', rbuf.n)
